@@ -568,3 +568,13 @@ Proof.
   - unfold run_hist, hist_two, fold_left, apply_ev. rewrite H. vm_compute. reflexivity.
   - reflexivity.
 Qed.
+
+Lemma effective_limit_spec : forall passive_on ucc raw,
+  (raw <> 0 -> effective_max_conns passive_on ucc raw = raw) /\
+  (0 < ucc -> effective_max_conns true ucc 0 = ucc) /\
+  effective_max_conns false ucc 0 = 0.
+Proof.
+  intros passive_on ucc raw. unfold effective_max_conns. repeat split.
+  - intros H. destruct (Z.eqb_spec raw 0); [contradiction|reflexivity].
+  - intros H. cbn. destruct (Z.ltb_spec 0 ucc); [reflexivity|lia].
+Qed.
